@@ -278,6 +278,13 @@ class Evaluator(object):
                     names.append(k)
         for k in names:
             vals = [s.env[k] for s in states if k in s.env]
+            if k == '__aliases__':
+                al = {}
+                for d in vals:
+                    for n, slots in d.items():
+                        al[n] = al.get(n, ()) + tuple(x for x in slots if x not in al.get(n, ()))
+                env[k] = al
+                continue
             env[k] = mkphi(vals)
         facts = dict(first.facts)
         for s in states[1:]:
@@ -382,9 +389,10 @@ class Evaluator(object):
                 return body[0]
             return a
         stmts = [unproduct(a) for a in stmts]
-        # pass 0b: `for v in [E for k in xs if c]: body` -> `for k in xs: if c: v = E; body` (the filter of the loop source becomes a guard of the body)
+        # pass 0b: `for v in (E for k in xs if c): body` -> `for k in xs: if c: v = E; body` (the filter of the loop source becomes a guard of the body).
+        # Only for generator expressions, which are consumed one element per iteration; a list is complete before the first iteration (fetch all, then act)
         def unfilter(a):
-            if isinstance(a, ast.For) and not a.orelse and isinstance(a.iter, (ast.ListComp, ast.GeneratorExp)) and len(a.iter.generators) == 1 \
+            if isinstance(a, ast.For) and not a.orelse and isinstance(a.iter, ast.GeneratorExp) and len(a.iter.generators) == 1 \
                     and not a.iter.generators[0].is_async and not any(isinstance(n, (ast.Break,)) for b in a.body for n in ast.walk(b)):
                 g = a.iter.generators[0]
                 bound = {n.id for n in ast.walk(g.target) if isinstance(n, ast.Name)}
@@ -442,6 +450,26 @@ class Evaluator(object):
             return None
         fis = []
         for a in stmts:
+            if isinstance(a, ast.For) and not a.orelse and len(a.body) >= 2 and all(append_to(b) for b in a.body) \
+                    and len({append_to(b) for b in a.body}) == len(a.body):
+                # one loop filling several lists, one append each per iteration (an "unzip"): one accumulation per list
+                names = [append_to(b) for b in a.body]
+                empties = {}
+                j = len(fis) - 1
+                while j >= 0 and isinstance(fis[j], ast.Assign) and len(fis[j].targets) == 1 and isinstance(fis[j].targets[0], ast.Name) \
+                        and isinstance(fis[j].value, ast.List) and not fis[j].value.elts:
+                    empties[fis[j].targets[0].id] = j
+                    j -= 1
+                reads = {n.id for part in [a.iter] + [b.value.args[0] for b in a.body] for n in ast.walk(part) if isinstance(n, ast.Name)}
+                if all(x in empties for x in names) and not (set(names) & reads):
+                    inits = {x: fis[empties[x]] for x in names}
+                    for k in sorted((empties[x] for x in names), reverse=True):
+                        del fis[k]
+                    for x, b in zip(names, a.body):
+                        lx = ast.copy_location(ast.For(target=a.target, iter=a.iter, body=[b], orelse=[]), a)
+                        ast.fix_missing_locations(lx)
+                        fis.extend([inits[x], lx])
+                    continue
             if isinstance(a, ast.For) and not a.orelse and len(a.body) == 1:
                 inner = ifexp_call(a.body[0])
                 if isinstance(inner, ast.If) and len(inner.body) == 1 and len(inner.orelse) == 1:
@@ -727,6 +755,8 @@ class Evaluator(object):
             if self.track_assign:
                 self.emit(st, 'assign', tgt.id, value, st.env.get(tgt.id), node=node)
             st.env[tgt.id] = value
+            if '__aliases__' in st.env:
+                self._drop_alias(st, tgt.id)
             return [st]
         if isinstance(tgt, (ast.Tuple, ast.List)):
             states = [st]
@@ -758,11 +788,40 @@ class Evaluator(object):
                 # re-bind local container names
                 if isinstance(tgt.value, ast.Name) and tgt.value.id in s.env:
                     s.env[tgt.value.id] = ('setitem', o, i, value)
+                    self._propagate_alias(s, tgt.value.id)
                 out.append(s)
             return out
         if isinstance(tgt, ast.Starred):
             return self.assign_target(tgt.value, value, st, node)
         raise AnalysisError("unsupported assignment target at %s:%s" % (self.fi.file, node.lineno))
+
+    # --- one object under two names: `box['k'] = part = {}` (or `part = {}; box['k'] = part`) followed by `part[x] = y` changes what box['k'] holds.
+    # Terms are values, so the link is kept on the side: env['__aliases__'] maps the local name of a fresh container to the (container name, key) slots
+    # that hold the same object; a later mutation of the name re-stores its new value in those slots.
+    @staticmethod
+    def _fresh_container(t):
+        while t[0] in ('setitem', 'mut'):
+            t = t[1]
+        return t[0] in ('dict', 'list', 'set') or (t[0] == 'call' and T.dotted(t[1]) in ('dict', 'list', 'set', 'OrderedDict', 'collections.OrderedDict') and not t[2] and not t[3])
+
+    def _register_alias(self, st, name, holder, key):
+        al = dict(st.env.get('__aliases__', {}))
+        al[name] = tuple(x for x in al.get(name, ()) if x != (holder, key)) + ((holder, key),)
+        st.env['__aliases__'] = al
+
+    def _drop_alias(self, st, name):
+        al = st.env.get('__aliases__')
+        if al and (name in al or any(h == name for slots in al.values() for h, _ in slots)):
+            al = {n: tuple(x for x in slots if x[0] != name) for n, slots in al.items() if n != name}
+            st.env['__aliases__'] = {n: slots for n, slots in al.items() if slots}
+
+    def _propagate_alias(self, st, name):
+        al = st.env.get('__aliases__')
+        if not al or name not in al:
+            return
+        for holder, key in al[name]:
+            if holder in st.env and name in st.env:
+                st.env[holder] = ('setitem', st.env[holder], key, st.env[name])
 
     def st_Assign(self, node, st):
         out = []
@@ -773,6 +832,20 @@ class Evaluator(object):
                 for s2 in states:
                     new.extend(self.assign_target(tgt, v, s2, node))
                 states = new
+            names = [t.id for t in node.targets if isinstance(t, ast.Name)]
+            slots = [t for t in node.targets if isinstance(t, ast.Subscript) and isinstance(t.value, ast.Name)]
+            if isinstance(node.value, ast.Name) and node.value.id != '__aliases__':
+                names = names + [node.value.id]
+            if names and slots and self._fresh_container(v):
+                for s2 in states:
+                    for t in slots:
+                        if t.value.id in s2.env:
+                            holder_term = s2.env[t.value.id]
+                            key = holder_term[2] if holder_term[0] == 'setitem' else None
+                            if key is not None:
+                                for n in names:
+                                    if n in s2.env and n != t.value.id:
+                                        self._register_alias(s2, n, t.value.id, key)
             out.extend((None, s2) for s2 in states)
         return out
 
@@ -841,6 +914,14 @@ class Evaluator(object):
                     new.extend(self.assign_target(el, ('elem', x, lid), s, node))
                 states = new
             return states
+        if name == 'items' and it[1][0] == 'attr' and not it[2] and not it[3] and isinstance(tgt, (ast.Tuple, ast.List)) and len(tgt.elts) == 2 \
+                and not any(isinstance(e, ast.Starred) for e in tgt.elts):
+            # `for k, v in d.items()`: v is d[k] (the same term as the spelling `for k in d: v = d[k]`)
+            key = ('item', ('elem', it, lid), 0)
+            out = []
+            for s in self.assign_target(tgt.elts[0], key, st, node):
+                out.extend(self.assign_target(tgt.elts[1], ('sub', it[1][1], key), s, node))
+            return out
         if name == 'reversed' and T.dotted(it[1]) == 'reversed' and len(it[2]) == 1:
             return self.assign_target(tgt, ('elem', it[2][0], lid), st, node)
         return self.assign_target(tgt, ('elem', it, lid), st, node)
@@ -1006,12 +1087,28 @@ class Evaluator(object):
         return out
 
     @staticmethod
+    def _alt_arity(value):
+        """common length of the tuple / list displays a value may stand for (None when they differ or something else is among them)"""
+        lens = set()
+        for x in T.value_alts(value):
+            if x[0] in ('tuple', 'list') and not any(y[0] == 'star' for y in x[1]):
+                lens.add(len(x[1]))
+            else:
+                return None
+        return lens.pop() if len(lens) == 1 else None
+
+    @staticmethod
     def _component(value, i, n):
         """i-th of the n components of a value that is a tuple / list display, or alternatives (phi, conditional expression) of such; None otherwise"""
         if value[0] in ('tuple', 'list'):
             if len(value[1]) == n and not any(x[0] == 'star' for x in value[1]):
                 return value[1][i]
             return None
+        if value[0] == 'comp' and value[1] in ('gen', 'list') and len(value[3]) == 1 and not value[3][0][2] and value[3][0][1][0] in ('tuple', 'list') \
+                and len(value[3][0][1][1]) == n and not any(x[0] == 'star' for x in value[3][0][1][1]):
+            # `a, b = (f(x) for x in (p, q))`: f(p), f(q)
+            clid, src, _ = value[3][0]
+            return T.replace(value[2], ('elem', src, clid), src[1][i])
         if value[0] == 'phi':
             parts = [Evaluator._component(x, i, n) for x in value[1]]
             return None if any(p_ is None for p_ in parts) else mkphi(parts)
@@ -1074,6 +1171,44 @@ class Evaluator(object):
                 continue
             lid = self.loop_id(node)
             zero = s0.fork()                       # zero iterations
+            if it[0] == 'phi' and not node.orelse and all(x[0] == 'comp' and x[1] == 'gen' and x[3] for x in it[1]) and len(it[1]) <= 4 and self.mode == 'join':
+                # either of several generators (chosen by an earlier test that was merged): the loop is run for each of them in turn
+                cur = s0
+                for alt in it[1]:
+                    synth = ast.For(target=node.target, iter=ast.Name(id='__phi_alt', ctx=ast.Load()), body=node.body, orelse=[])
+                    ast.copy_location(synth, node)
+                    ast.copy_location(synth.iter, node)
+                    self._loop_ids.setdefault(synth, self.loop_id(node))
+                    cur.env['__phi_alt'] = alt
+                    res = self.st_For(synth, cur)
+                    cur = res[0][1]
+                    cur.env.pop('__phi_alt', None)
+                outs.append((None, cur))
+                continue
+            if it[0] == 'comp' and it[1] == 'gen' and it[3] and not node.orelse:
+                # a loop over a comprehension built earlier (a generator handed to a helper): the iterations are those of the comprehension's own loops, filtered by
+                # its conditions, and the loop variable is its element
+                s0.loops = s0.loops + tuple(g[0] for g in it[3]) + (lid,)
+                self._bind_carried(node.body, s0, lid)
+                for g in it[3]:
+                    for c in g[2]:
+                        atom, neg = canon_atom(c)
+                        if atom[0] != 'const':
+                            s0.guards = s0.guards + ((atom, not neg),)
+                conts = []
+                for s1 in self.assign_target(node.target, it[2], s0, node):
+                    for g in it[3]:
+                        self.emit(s1, 'loop', g[1], g[0], node=node)
+                    for status, s2 in self.exec_block(node.body, s1):
+                        conts.append(s2)
+                for s in conts:
+                    s.loops = zero.loops
+                    s.guards = zero.guards
+                merged = self.merge([zero] + conts, base) if conts else zero
+                merged.guards = zero.guards
+                merged.facts = dict(zero.facts)
+                outs.append((None, merged))
+                continue
             s0.loops = s0.loops + (lid,)
             self._bind_carried(node.body, s0, lid)
             conts = []
@@ -1450,7 +1585,25 @@ class Evaluator(object):
             elif known is False:
                 out.extend(self.ev(node.orelse, s))
             else:
-                for (a, b), s2 in self.ev_seq([node.body, node.orelse], s):
+                # what happens inside a branch happens under the test's outcome: events raised there carry it as a guard (when the outcome is one
+                # conjunction of atoms - the single way a test can be true, or false)
+                from .rules import cond_paths
+                try:
+                    cps = cond_paths(c)
+                except Exception:
+                    cps = []
+                yes = [g for g, truth in cps if truth]
+                no = [g for g, truth in cps if not truth]
+                saved = s.guards
+                pairs = []
+                s.guards = saved + tuple(yes[0]) if len(yes) == 1 else saved
+                ra = self.ev(node.body, s)
+                for a, s_a in ra:
+                    s_a.guards = saved + tuple(no[0]) if len(no) == 1 else saved
+                    for b, s_b in self.ev(node.orelse, s_a):
+                        s_b.guards = saved
+                        pairs.append(((a, b), s_b))
+                for (a, b), s2 in pairs:
                     # canonical polarity: `x if p != q else y` and `y if p == q else x` are the same term
                     if neg and c[0] not in ('boolop', 'ifexp'):
                         out.append((('ifexp', atom, b, a), s2))
@@ -1742,6 +1895,10 @@ class Evaluator(object):
             for a in args:
                 if a[0] == 'star' and a[1][0] in ('tuple', 'list') and not any(x[0] == 'star' for x in a[1][1]):
                     xargs.extend(a[1][1])
+                elif a[0] == 'star' and a[1][0] in ('ifexp', 'phi') and self._alt_arity(a[1]):
+                    # f(*(t1 if c else t2)) with tuples of one length: the conditional components
+                    n_ = self._alt_arity(a[1])
+                    xargs.extend(self._component(a[1], k, n_) for k in range(n_))
                 elif a[0] == 'star' and a[1][0] == 'call' and self._tuple_arity(a[1]):
                     # f(*g(...)) where g always returns an n-tuple: the n items
                     xargs.extend(('item', a[1], k) for k in range(self._tuple_arity(a[1])))
@@ -1769,6 +1926,10 @@ class Evaluator(object):
                     t = ('setitem', t, const(k), v)
                 out.append((t, s))
                 continue
+            # dict(k=v, ...) is the display {'k': v, ...}
+            if d == 'dict' and not xargs and kws and not any(k == '**' for k, _ in kws) and 'dict' not in s.env:
+                out.append((('dict', tuple((const(k), v) for k, v in kws)), s))
+                continue
             call = ('call', f, tuple(xargs), tuple(kws))
             out.extend(self._do_call(call, node, s))
         return out
@@ -1781,7 +1942,36 @@ class Evaluator(object):
             return list(v[3])
         return None
 
+    # NumPy signatures: positional arguments after the first are read as the keywords they stand for (`values.take(ii, pos, out, mode)` is
+    # `values.take(ii, axis=pos, out=out, mode=mode)`), so that both spellings give one term.  Only on receivers that are recognisably ndarrays.
+    # (the table holds the functions for which the library itself writes the keyword spelling - the one the rules were written against)
+    _NDARRAY_METHODS = {'take': ('indices', 'axis', 'out', 'mode')}
+    _NDARRAY_KEEP = {'take': 1}
+    _NP_FUNCS = {'take': ('a', 'indices', 'axis', 'out', 'mode')}
+    _NP_KEEP = {'take': 2}
+
+    @classmethod
+    def _numpy_keywords(cls, call):
+        f = call[1]
+        if f[0] != 'attr' or any(a[0] == 'star' for a in call[2]) or any(k == '**' for k, _ in call[3]):
+            return call
+        sig = keep = None
+        if f[1] in (('name', 'np'), ('name', 'numpy')):
+            sig, keep = cls._NP_FUNCS.get(f[2]), cls._NP_KEEP.get(f[2])
+        elif (f[1][0] == 'attr' and f[1][2] in ('values', '_values')) or (f[1][0] == 'call' and T.dotted(f[1][1]) in ('np.asarray', 'np.array', 'np.asanyarray')):
+            sig, keep = cls._NDARRAY_METHODS.get(f[2]), cls._NDARRAY_KEEP.get(f[2], 0)
+        if sig is None or keep is None or len(call[2]) <= keep or len(call[2]) > len(sig):
+            return call
+        given = dict(call[3])
+        extra = []
+        for name, val in zip(sig[keep:], call[2][keep:]):
+            if name in given:
+                return call
+            extra.append((name, val))
+        return ('call', f, tuple(call[2][:keep]), tuple(extra) + tuple(call[3]))
+
     def _do_call(self, call, node, st):
+        call = self._numpy_keywords(call)
         f = call[1]
         # beta-reduce immediately applied lambdas
         if f[0] == 'lambda' and len(call[2]) == f[1] and not call[3]:
@@ -1844,6 +2034,7 @@ class Evaluator(object):
                 and isinstance(node.func.value, ast.Name) and node.func.value.id in st.env \
                 and f[1][0] not in ('param', 'name', 'attr'):
             st.env[node.func.value.id] = ('mut', f[1], f[2], call[2])
+            self._propagate_alias(st, node.func.value.id)
         return [(call, st)]
 
     def _inline_call(self, fi, call, node, st):
